@@ -80,6 +80,33 @@ theorem refusals_sound_stack2 (magic : D → Nat) (ours proposed : Table D) :
     (∀ vs, negotiate2 magic ours proposed = .versionMismatch vs → ∀ w ∈ keys ours, w ∉ keys proposed) :=
   ⟨fun v h => refused_sound2 magic ours proposed v h, fun vs h => mismatch_only_if_disjoint2 magic ours proposed vs h⟩
 
+/-- completeness: with unique keys the highest common version alone decides. Stack 1 compares the whole
+    version data (every field, in full); stack 2 the two network magics as full 64-bit numbers. -/
+theorem highest_common_decides_stack1 [DecidableEq D] (ours theirs : Table D) (hno : (keys ours).Nodup)
+    (hnt : (keys theirs).Nodup) (v : Nat) (d d' : D) (ho : (v, d) ∈ ours) (ht : (v, d') ∈ theirs)
+    (hmax : ∀ w, w ∈ keys ours → w ∈ keys theirs → w ≤ v) :
+    negotiate1 ours theirs = if d = d' then .accept v d else .refused v :=
+  negotiate1_complete ours theirs hno hnt v d d' ho ht hmax
+
+theorem highest_common_decides_stack2 (magic : D → Nat) (ours proposed : Table D) (hno : (keys ours).Nodup)
+    (hnp : (keys proposed).Nodup) (v : Nat) (d pd : D) (ho : (v, d) ∈ ours) (hp : (v, pd) ∈ proposed)
+    (hmax : ∀ w, w ∈ keys ours → w ∈ keys proposed → w ≤ v) :
+    negotiate2 magic ours proposed = if magic pd ≠ magic d then .refused v else .accept v d :=
+  negotiate2_complete magic ours proposed hno hnp v d pd ho hp hmax
+
+/-- Two magics that differ only above bit 8 / 16 / 32 (or anywhere) are different networks: whenever the
+    peer's magic for the highest common version is ours plus a non-zero multiple of `2^k`, the
+    responder refuses — there is no narrowing of the 64-bit value. -/
+theorem magic_high_bits_refused_stack2 (magic : D → Nat) (ours proposed : Table D) (hno : (keys ours).Nodup)
+    (hnp : (keys proposed).Nodup) (v : Nat) (d pd : D) (ho : (v, d) ∈ ours) (hp : (v, pd) ∈ proposed)
+    (hmax : ∀ w, w ∈ keys ours → w ∈ keys proposed → w ≤ v)
+    (k j : Nat) (hj : 0 < j) (hhigh : magic pd = magic d + j * 2 ^ k) :
+    negotiate2 magic ours proposed = .refused v := by
+  rw [highest_common_decides_stack2 magic ours proposed hno hnp v d pd ho hp hmax]
+  have : 0 < j * 2 ^ k := Nat.mul_pos hj (Nat.two_pow_pos k)
+  have hne : magic pd ≠ magic d := by omega
+  simp [hne]
+
 theorem stack2_never_panics (magic : D → Nat) (ours proposed : Table D) : negotiate2 magic ours proposed ≠ .panic :=
   negotiate2_no_panic magic ours proposed
 
@@ -109,5 +136,32 @@ example : (keys (D := VD) [(13, (1, 0)), (14, (1, 1))]).Nodup ∧
   constructor
   · decide
   · exact List.Perm.swap ..
+
+/-! ## 64-bit witnesses: equality is on the full `u64`, for magics and for version numbers -/
+
+/-- MAINNET_MAGIC and MAINNET_MAGIC + 2^32 are both `u64`s, agree modulo 2^32 — and are refused -/
+example : U64 764824073 ∧ U64 5059791369 ∧ 5059791369 % 2 ^ 32 = 764824073 % 2 ^ 32 ∧
+    negotiate2 (D := VD) (·.1) [(13, (764824073, 0))] [(13, (5059791369, 0))] = .refused 13 := by decide
+/-- the same for magics agreeing modulo 2^16, modulo 2^8, and differing only in bit 63 -/
+example : negotiate2 (D := VD) (·.1) [(14, (764824073, 0)), (13, (764824073, 0))]
+    [(14, (764824073 + 2 ^ 16, 0)), (13, (764824073, 0))] = .refused 14 := by decide
+example : negotiate2 (D := VD) (·.1) [(13, (1, 0))] [(13, (257, 0))] = .refused 13 := by decide
+example : negotiate2 (D := VD) (·.1) [(13, (2, 0))] [(13, (2 + 2 ^ 63, 0))] = .refused 13 := by decide
+example : negotiate2 (D := VD) (·.1) [(13, (0, 0))] [(13, (2 ^ 64 - 1, 0))] = .refused 13 := by decide
+/-- … while equal 64-bit magics are accepted -/
+example : negotiate2 (D := VD) (·.1) [(13, (5059791369, 1))] [(13, (5059791369, 0))] = .accept 13 (5059791369, 1) := by decide
+/-- stack 1 compares the whole data: a magic differing only above bit 32 refuses -/
+example : negotiate1 (D := VD) [(13, (764824073, 0))] [(13, (5059791369, 0))] = .refused 13 := by
+  rw [negotiate1_of_sorted (by decide)]; decide
+/-- version numbers are full `u64`s too: 13 and 13 + 2^16 / 13 + 2^32 are different versions, in one
+    table and across tables -/
+example : negotiate2 (D := VD) (·.1) [(13, (1, 0)), (13 + 2 ^ 16, (1, 1))] [(13 + 2 ^ 32, (1, 0)), (13, (1, 0))]
+    = .accept 13 (1, 0) := by decide
+example : negotiate2 (D := VD) (·.1) [(13, (1, 0))] [(13 + 2 ^ 32, (1, 0)), (13 + 2 ^ 16, (1, 0))]
+    = .versionMismatch [13] := by decide
+example : negotiate1 (D := VD) [(13 + 2 ^ 32, (1, 1)), (13 + 2 ^ 16, (1, 0)), (13, (1, 0))] [(13 + 2 ^ 16, (1, 0)), (13, (1, 0))]
+    = .accept (13 + 2 ^ 16) (1, 0) := by rw [negotiate1_of_sorted (by decide)]; decide
+example : negotiate1 (D := VD) [(13, (1, 0))] [(13 + 2 ^ 32, (1, 0))] = .versionMismatch [13] := by
+  rw [negotiate1_of_sorted (by decide)]; decide
 
 end PallasVerif.Props.C25
